@@ -110,55 +110,49 @@ def firstStr : Res unitOps (List (Val unitOps)) → Option (List UInt8)
   | .ok (.str s :: _) _ => some s
   | _ => none
 
-/-- the full claim: for every sound truthiness oracle, the lowered expression returns what the
-if-expression returns -/
-def ifexpr_full : Prop :=
-  ∀ (truthy : Expr → Bool),
-    (∀ r, truthy r = true → ∀ (N : NumOps) (call : CallFn N) (ρ : ExtOracle N) (k : Nat) (env : Env N) σ vs σ',
-      evalE call ρ k env r σ = .ok vs σ' → (first vs).truthy = true) →
-  ∀ (e : Expr) (N : NumOps) (call : CallFn N) (ρ : ExtOracle N) (k : Nat) (env : Env N) (σ σ' : State N)
-    (vs : List (Val N)), evalE call ρ k env e σ = .ok vs σ' →
-    ∃ σ'', evalE call ρ k env (RemoveIfExpression.processExpression truthy e) σ = .ok vs σ''
-
-/-- the witness of finding F25: `if false then "a" elseif true then "b" elseif true then "c" else "d"` -/
+/-- the witness of (fixed) finding F25: `if false then "a" elseif true then "b" elseif true then "c" else "d"` -/
 def f25Witness : Expr := .ifx .false (.str [97]) [(.true, .str [98]), (.true, .str [99])] (.str [100])
 
 def strTruthy : Expr → Bool
   | .str _ => true
   | _ => false
 
-open Rules.Witness in
-/-- **F25**: the full claim is false — with two `elseif` branches the rule tests them in reverse
-order: the witness evaluates to `"b"`, its lowering `false and "a" or (true and "c" or (true and "b" or "d"))` to `"c"`. -/
-theorem ifexpr_full_false : ¬ ifexpr_full := by
-  intro hfull
-  have hsound : ∀ r, strTruthy r = true → ∀ (N : NumOps) (call : CallFn N) (ρ : ExtOracle N) (k : Nat) (env : Env N)
-      σ vs σ', evalE call ρ k env r σ = .ok vs σ' → (first vs).truthy = true := by
-    intro r hr N call ρ k env σ vs σ' h
-    cases r <;> simp [strTruthy] at hr
-    simp only [evalE, Res.ok.injEq] at h
-    rw [← h.1]; rfl
-  have h1 : firstStr (evalE call0 ρ0 1 env0 f25Witness σ0) = some [98] := by decide
-  have h2 : firstStr (evalE call0 ρ0 1 env0 (RemoveIfExpression.processExpression strTruthy f25Witness) σ0)
-      = some [99] := by decide
-  cases hr : evalE call0 ρ0 1 env0 f25Witness σ0 with
-  | timeout => simp [hr, firstStr] at h1
-  | err v σ1 => simp [hr, firstStr] at h1
-  | ok vs σ1 =>
-    obtain ⟨σ2, h3⟩ := hfull strTruthy hsound f25Witness unitOps call0 ρ0 1 env0 σ0 σ1 vs hr
-    rw [hr] at h1; rw [h3] at h2
-    cases vs with
-    | nil => simp [firstStr] at h1
-    | cons v rest => cases v <;> simp_all [firstStr]
-
+-- regression (F25, fixed by folding the branches from the last one): the `elseif` conditions are tested in
+-- source order again, the witness and its lowering both evaluate to "b"
 example : RemoveIfExpression.processExpression strTruthy f25Witness =
     .bin .or (.bin .and .false (.str [97]))
-      (.bin .or (.bin .and .true (.str [99])) (.bin .or (.bin .and .true (.str [98])) (.str [100]))) := rfl
+      (.bin .or (.bin .and .true (.str [98])) (.bin .or (.bin .and .true (.str [99])) (.str [100]))) := rfl
 
+open Rules.Witness in
+example : firstStr (evalE call0 ρ0 1 env0 f25Witness σ0) = some [98] ∧
+    firstStr (evalE call0 ρ0 1 env0 (RemoveIfExpression.processExpression strTruthy f25Witness) σ0) = some [98] := by
+  decide
 
-/-- one `elseif` is an if-expression in the else position -/
-theorem ifx_one_elif (c t c1 t1 e : Expr) (σ : State N) :
-    evalE call ρ k env (.ifx c t [(c1, t1)] e) σ = evalE call ρ k env (.ifx c t [] (.ifx c1 t1 [] e)) σ := by
+/-- a taken `elseif` branch yields exactly one value -/
+theorem evalElifs_single : ∀ (ps : List (Expr × Expr)) (σ σ' : State N) (vs : List (Val N)),
+    evalElifs call ρ k env ps σ = .ok (some vs) σ' → vs = [first vs]
+  | [], σ, σ', vs, h => by simp [evalElifs] at h
+  | (c, t) :: rest, σ, σ', vs, h => by
+    simp only [evalElifs] at h
+    cases hc : evalE call ρ k env c σ with
+    | ok cv σ1 =>
+      simp only [hc, Res.bind] at h
+      by_cases ht : (first cv).truthy = true
+      · simp only [ht, if_true] at h
+        cases hr : evalE call ρ k env t σ1 with
+        | ok ws σ2 =>
+          simp only [hr, Res.bind, Res.ok.injEq, Option.some.injEq] at h
+          rw [← h.1]; rfl
+        | err v σ2 => simp [hr, Res.bind] at h
+        | timeout => simp [hr, Res.bind] at h
+      · simp only [ht, Bool.false_eq_true, if_false] at h
+        exact evalElifs_single rest σ1 σ' vs h
+    | err v σ1 => simp [hc, Res.bind] at h
+    | timeout => simp [hc, Res.bind] at h
+
+/-- the first `elseif` is an if-expression in the else position -/
+theorem ifx_cons_elif (c t c1 t1 : Expr) (rest : List (Expr × Expr)) (e : Expr) (σ : State N) :
+    evalE call ρ k env (.ifx c t ((c1, t1) :: rest) e) σ = evalE call ρ k env (.ifx c t [] (.ifx c1 t1 rest e)) σ := by
   simp only [evalE, evalElifs]
   cases evalE call ρ k env c σ with
   | ok cv σ1 =>
@@ -173,7 +167,18 @@ theorem ifx_one_elif (c t c1 t1 e : Expr) (σ : State N) :
         · simp only [ht1, if_true]
           cases evalE call ρ k env t1 σ2 <;> simp [Res.bind, first]
         · simp only [ht1, Bool.false_eq_true, if_false]
-          cases evalE call ρ k env e σ2 <;> simp [Res.bind, first]
+          cases hel : evalElifs call ρ k env rest σ2 with
+          | ok r σ3 =>
+            cases r with
+            | some vs =>
+              have := evalElifs_single call ρ k env rest σ2 σ3 vs hel
+              simp only [Res.bind, Res.ok.injEq, and_true]
+              exact this
+            | none =>
+              simp only [Res.bind]
+              cases evalE call ρ k env e σ3 <;> simp [Res.bind, first]
+          | err v σ3 => simp [Res.bind]
+          | timeout => simp [Res.bind]
       | err v σ2 => simp [Res.bind]
       | timeout => simp [Res.bind]
   | err v σ1 => simp [Res.bind]
@@ -184,31 +189,30 @@ theorem ifx_congr_else (c t e e' : Expr) (h : ∀ σ, evalE call ρ k env e' σ 
     evalE call ρ k env (.ifx c t [] e') σ = evalE call ρ k env (.ifx c t [] e) σ := by
   simp only [evalE, evalElifs, h]
 
-/-- **`remove_if_expression`, partial** (hypothesis `H`: at most one `elseif` — F25 — and every branch
-result known truthy, so that the `and`/`or` encoding is chosen): the hook's output has EXACTLY the
-denotation of the if-expression — conditions tested in order, each sub-expression evaluated at most
-once, result truncated to one value — in every context. `hst`/`hsts` (a branch result whose
-evaluation succeeds is truthy) is what C08's `truthy_sound` provides: see `ifexpr_partial_c08`. -/
-theorem ifexpr_partial (truthy : Expr → Bool)
-    (c t : Expr) (elifs : List (Expr × Expr)) (e : Expr) (hlen : elifs.length ≤ 1) (ht : truthy t = true)
-    (hts : ∀ p ∈ elifs, truthy p.2 = true)
-    (hst : ∀ σ vs σ', evalE call ρ k env t σ = .ok vs σ' → (first vs).truthy = true)
-    (hsts : ∀ p ∈ elifs, ∀ σ vs σ', evalE call ρ k env p.2 σ = .ok vs σ' → (first vs).truthy = true)
-    (σ : State N) :
-    evalE call ρ k env (RemoveIfExpression.processExpression truthy (.ifx c t elifs e)) σ
-      = evalE call ρ k env (.ifx c t elifs e) σ := by
-  match elifs, hlen, hts, hsts with
-  | [], _, _, _ =>
+/-- **`remove_if_expression`, `and`/`or` encoding, ANY number of `elseif` branches** (true since the fix
+of F25; before it only for at most one `elseif`): when every branch result is known truthy the hook's
+output has EXACTLY the denotation of the if-expression — conditions tested in source order, each
+sub-expression evaluated at most once, result truncated to one value — in every context. `hst`/`hsts`
+(a branch result whose evaluation succeeds is truthy) is what C08's `truthy_sound` provides: see
+`ifexpr_partial_c08`. -/
+theorem ifexpr_partial (truthy : Expr → Bool) :
+    ∀ (elifs : List (Expr × Expr)) (c t e : Expr), truthy t = true → (∀ p ∈ elifs, truthy p.2 = true) →
+    (∀ σ vs σ', evalE call ρ k env t σ = .ok vs σ' → (first vs).truthy = true) →
+    (∀ p ∈ elifs, ∀ σ vs σ', evalE call ρ k env p.2 σ = .ok vs σ' → (first vs).truthy = true) →
+    ∀ σ : State N, evalE call ρ k env (RemoveIfExpression.processExpression truthy (.ifx c t elifs e)) σ
+      = evalE call ρ k env (.ifx c t elifs e) σ
+  | [], c, t, e, ht, _, hst, _, σ => by
     simp only [RemoveIfExpression.processExpression, RemoveIfExpression.foldBranches,
       RemoveIfExpression.convertIfBranch, ht, if_true]
     exact ifexpr_and_or_exact call ρ k env c t e hst σ
-  | [(c1, t1)], _, hts, hsts =>
-    have ht1 : truthy t1 = true := hts (c1, t1) (by simp)
-    simp only [RemoveIfExpression.processExpression, RemoveIfExpression.foldBranches,
-      RemoveIfExpression.convertIfBranch, ht, ht1, if_true]
-    rw [ifx_one_elif, ifexpr_and_or_exact call ρ k env c t _ hst σ]
-    exact ifx_congr_else call ρ k env c t _ _
-      (fun σ' => ifexpr_and_or_exact call ρ k env c1 t1 e (hsts (c1, t1) (by simp)) σ') σ
+  | (c1, t1) :: rest, c, t, e, ht, hts, hst, hsts, σ => by
+    have ih := ifexpr_partial truthy rest c1 t1 e (hts (c1, t1) (by simp))
+      (fun p hp => hts p (by simp [hp])) (hsts (c1, t1) (by simp)) (fun p hp => hsts p (by simp [hp]))
+    simp only [RemoveIfExpression.processExpression, RemoveIfExpression.foldBranches] at ih ⊢
+    rw [ifx_cons_elif]
+    simp only [RemoveIfExpression.convertIfBranch, ht, if_true] at ih ⊢
+    rw [ifexpr_and_or_exact call ρ k env c t _ hst σ]
+    exact ifx_congr_else call ρ k env c t _ _ ih σ
 
 /-- the verdict the driver computes: `Evaluator::evaluate(e).is_truthy().unwrap_or_default()` -/
 def evalTruthy (E : Evaluator.EvalOps N) (e : Expr) : Bool := (Evaluator.evaluate E e).isTruthy == some true
@@ -217,12 +221,12 @@ def evalTruthy (E : Evaluator.EvalOps N) (e : Expr) : Bool := (Evaluator.evaluat
 the driver runs), inside C08's hypothesis `h8` for the branch results (outside it the evaluator itself
 is wrong: C08 findings). -/
 theorem ifexpr_partial_c08 (E : Evaluator.EvalOps N) (A : C08.Agree N E)
-    (c t : Expr) (elifs : List (Expr × Expr)) (e : Expr) (hlen : elifs.length ≤ 1)
+    (c t : Expr) (elifs : List (Expr × Expr)) (e : Expr)
     (ht : evalTruthy E t = true) (hts : ∀ p ∈ elifs, evalTruthy E p.2 = true)
     (h8t : C08.h8 E t = true) (h8ts : ∀ p ∈ elifs, C08.h8 E p.2 = true) (σ : State N) :
     evalE call ρ k env (RemoveIfExpression.processExpression (evalTruthy E) (.ifx c t elifs e)) σ
       = evalE call ρ k env (.ifx c t elifs e) σ :=
-  ifexpr_partial call ρ k env (evalTruthy E) c t elifs e hlen ht hts
+  ifexpr_partial call ρ k env (evalTruthy E) elifs c t e ht hts
     (fun σ vs σ' h => C08.truthy_sound A call ρ k env t σ σ' vs true h8t (by simpa [evalTruthy] using ht) h)
     (fun p hp σ vs σ' h =>
       C08.truthy_sound A call ρ k env p.2 σ σ' vs true (h8ts p hp) (by simpa [evalTruthy] using hts p hp) h) σ
@@ -427,14 +431,7 @@ theorem floordiv_full_false : ¬ floordiv_full := by
     rw [h3] at h2
     simp [isOk] at h2
 
-/-- the full claim for the statement hook (`x //= y` handed to the nested compound-assignment
-visitor): wherever the statement succeeds, the hook's output succeeds -/
-def floordiv_stmt_full : Prop :=
-  ∀ (st : Stmt) (s : RemoveFloorDivision.State) (N : NumOps) (call : CallFn N) (ρ : ExtOracle N) (k : Nat) (env : Env N)
-    (σ σ' : State N) (c : Ctl N), execS call ρ k env st σ = .ok c σ' →
-    ∃ c' σ'', execS call ρ k env (RemoveFloorDivision.processStatement st s).1 σ = .ok c' σ''
-
-/-- `t.a.b //= __DARKLUA_VAR` -/
+/-- `t.a.b //= __DARKLUA_VAR` — the witness of (fixed) finding F28 -/
 def f28Witness : Stmt := .cassign .idiv (.field (.field (.var "t") "a") "b") (.var "__DARKLUA_VAR")
 
 open Rules.Witness in
@@ -447,27 +444,32 @@ def σ28 : State unitOps :=
 open Rules.Witness in
 def env28 : Env unitOps := ⟨[("__DARKLUA_VAR", 0)], []⟩
 
-example : (RemoveFloorDivision.processStatement f28Witness {}).1 =
-    .doBlock (.mk [.localAssign .loc [.mk "__DARKLUA_VAR" none] [.field (.var "t") "a"],
-      .assign [.field (.var "__DARKLUA_VAR") "b"]
-        [.bin .idiv (.field (.var "__DARKLUA_VAR") "b") (.var "__DARKLUA_VAR")]] none) := by rfl
+/-- the processor state the scope visitor is in at that statement: its tracker has seen the declaration
+of the user's local -/
+def s28 : RemoveFloorDivision.State := { tracker := { ids := [["__DARKLUA_VAR"]] } }
 
+-- regression (F28, fixed by running the nested lowering with the outer identifier tracker): the temporary
+-- no longer captures the user's local — it is `__DARKLUA_VAR0` — …
+example : (RemoveFloorDivision.processStatement f28Witness s28).1 =
+    .doBlock (.mk [.localAssign .loc [.mk "__DARKLUA_VAR0" none] [.field (.var "t") "a"],
+      .assign [.field (.var "__DARKLUA_VAR0") "b"]
+        [.bin .idiv (.field (.var "__DARKLUA_VAR0") "b") (.var "__DARKLUA_VAR")]] none) := by rfl
+
+-- … and the lowered statement runs where the original runs (before the fix it raised
+-- "attempt to perform arithmetic on a table value")
 open Rules.Witness in
-/-- **F28**: the nested visitor starts from a FRESH identifier tracker, so its temporary
-`__DARKLUA_VAR` captures the user's local of that name read by the right-hand side: the original
-statement divides two numbers, the lowered one divides a number by the table `t.a` and raises. -/
-theorem floordiv_stmt_full_false : ¬ floordiv_stmt_full := by
-  intro hfull
-  have h1 : isOk (execS call0 ρ0 3 env28 f28Witness σ28) = true := by decide +kernel
-  have h2 : isOk (execS call0 ρ0 3 env28 (RemoveFloorDivision.processStatement f28Witness {}).1 σ28) = false := by
-    decide +kernel
-  cases hr : execS call0 ρ0 3 env28 f28Witness σ28 with
-  | timeout => simp [hr, isOk] at h1
-  | err v σ1 => simp [hr, isOk] at h1
-  | ok c σ1 =>
-    obtain ⟨c', σ2, h3⟩ := hfull f28Witness {} unitOps call0 ρ0 3 env28 σ28 σ1 c hr
-    rw [h3] at h2
-    simp [isOk] at h2
+example : isOk (execS call0 ρ0 3 env28 f28Witness σ28) = true ∧
+    isOk (execS call0 ρ0 3 env28 (RemoveFloorDivision.processStatement f28Witness s28).1 σ28) = true := by
+  decide +kernel
+
+/-- the statement hook, under the invariant the scope visitor maintains (every local of the environment
+is known to the tracker): wherever `x //= y` succeeds the hook's output succeeds. Introduces temporaries:
+to be proved with the heap-insensitive lifting; currently supported by the execution oracle. -/
+def floordiv_stmt_tracked : Prop :=
+  ∀ (st : Stmt) (s : RemoveFloorDivision.State) (N : NumOps) (call : CallFn N) (ρ : ExtOracle N) (k : Nat) (env : Env N)
+    (σ σ' : State N) (c : Ctl N), (∀ p ∈ env.locals, s.tracker.isUsed p.1 = true) →
+    execS call ρ k env st σ = .ok c σ' →
+    ∃ c' σ'', execS call ρ k env (RemoveFloorDivision.processStatement st s).1 σ = .ok c' σ''
 
 /-! ## `remove_continue` -/
 
